@@ -124,7 +124,11 @@ CHECKS = {
                 "to settle (the give-up instant is the product's wall clock). Every sixth scenario is the failed-retrier kind instead: subscription error + a tower "
                 "answering renewals with correctly signed receipts that do not extend the subscription (a permanent failure of the retry) until the tower is shown in "
                 "subscription_error with everything pending (20 s, else inconclusive); the tower then renews properly and either retrytower (documented for that state: "
-                "must be accepted) or one more revocation must get everything delivered within the same bound. distinct = distinct (kind, recovery instant, manual retry, scenario id).",
+                "must be accepted) or one more revocation must get everything delivered within the same bound. After a give-up, retrytower is also asked while the tower is "
+                "still failing and the status watched for 2.5 s: never reachable with data pending. Every eighth scenario is the revocation-mid-delivery kind: tower "
+                "down, one revocation, tower back answering after 1.2 s and accepting only that first request (garbage afterwards), a second revocation 1.0 s into the "
+                "delivery, then 3 s of status observations: shown reachable with data pending for more than 600 ms of consecutive observations is a violation; then "
+                "the tower works and everything must be delivered within the bound. distinct = distinct (kind, recovery instant, manual retry, scenario id).",
         "assumptions": [
             "the product defines its back-off in wall-clock seconds: bounds are >= 3x the configured delays plus 8 s slack; unbounded 'eventually' is restated as this bound",
             "one tower per scenario; timing-independent signals (missing rows, floods, overlapping loops, panic text) are verdicts immediately",
